@@ -87,24 +87,25 @@ type Run struct {
 	ops    []OpRec
 	record bool // keep operation data (for crash images)
 
-	curEv     int
-	curCall   string
-	callOps   int
-	phase     int // position inside a flush: 0 none, 1 after bh, 2 after pay
-	sawBh     bool
-	sawClose  bool
-	sawCreate bool
-	nops      int // file operations on the .hyd file so far
-	allops    int // file operations on any path so far (fault placement)
-	foreign   int
-	xhit      string // fault injected into an operation on another file (compaction)
-	hitOp     int    // index (within the call) of the operation that was hit
-	afterPut  bool   // ch level: WriteEntry of the current Write has returned (what follows is the inline compaction)
-	putOps    int    // number of file operations of the call at that moment
-	putFl     bool
-	faults    []Fault
-	hit       *Event // fault that fired during the current call
-	panics    int
+	curEv         int
+	curCall       string
+	callOps       int
+	phase         int // position inside a flush: 0 none, 1 after bh, 2 after pay
+	sawBh         bool
+	sawClose      bool
+	sawCreate     bool
+	nops          int // file operations on the .hyd file so far
+	allops        int // file operations on any path so far (fault placement)
+	foreign       int
+	xhit          string // fault injected into an operation on another file (compaction)
+	hitOp         int    // index (within the call) of the operation that was hit
+	pendingRename bool   // a compaction renamed its temporary file over the .hyd file during the current call
+	afterPut      bool   // ch level: WriteEntry of the current Write has returned (what follows is the inline compaction)
+	putOps        int    // number of file operations of the call at that moment
+	putFl         bool
+	faults        []Fault
+	hit           *Event // fault that fired during the current call
+	panics        int
 }
 
 var cur *Run
@@ -144,6 +145,9 @@ func hook(kind string, f *os.File, path string, data []byte) error {
 	r.allops++
 	if path != r.path { // the compaction's temporary file (or its rename): not part of the model
 		r.foreign++
+		if kind == "rename" { // the rename is performed unless this very operation is failed below
+			r.pendingRename = true
+		}
 		if r.record {
 			rec := OpRec{Ev: r.curEv, Kind: "x-" + kind, Raw: kind, Path: path, Off: -1}
 			if f != nil {
@@ -157,6 +161,7 @@ func hook(kind string, f *os.File, path string, data []byte) error {
 		for _, ft := range r.faults {
 			if ft.At == r.allops {
 				r.xhit = "x-" + kind + "/" + ft.Mode
+				r.pendingRename = false
 				if ft.Mode == "short" && f != nil && len(data) >= 2 {
 					f.Write(data[:len(data)/2])
 				}
@@ -253,6 +258,10 @@ func (r *Run) guarded(f func() error) (err error) {
 }
 
 func (r *Run) emit(ev Event) {
+	if r.pendingRename { // the event during which a compaction completed
+		ev["cx"] = 1
+		r.pendingRename = false
+	}
 	if r.xhit != "" {
 		ev["xf"] = r.xhit
 		r.xhit = ""
@@ -582,6 +591,8 @@ func (r *Run) stepCh(s Step) {
 		}
 		hit, hitOp := r.hit, r.hitOp
 		r.hit = nil
+		cx := r.pendingRename // belongs to the implicit close (the compaction runs after it)
+		r.pendingRename = false
 		if !r.wopen {
 			// the writer is created lazily inside Write: its file operations come first
 			ev := Event{"ev": "open", "nm": b2i(r.h.Named), "res": chronOpen}
@@ -620,6 +631,7 @@ func (r *Run) stepCh(s Step) {
 			r.emit(ev)
 		}
 		if r.sawClose || nCall > putOps { // inline compaction closed (or tried to close) the writer
+			r.pendingRename = cx
 			ev := Event{"ev": "close", "res": -1, "implicit": 1}
 			if hit != nil {
 				for kk, v := range *hit {
